@@ -336,15 +336,21 @@ class Cursor:
         c = cur()
         n = c.fresh_name(f"q{self.ordinal}.row")
         isn = c.fresh(n + ".none", BOOL)
-        c.event("sql.fetchone", ordinal=self.ordinal, cursor=self, isnone=isn)
+        ev = c.event("sql.fetchone", ordinal=self.ordinal, cursor=self, isnone=isn)
         if self.always_row:
             c.pc.append(tm.Not(isn))  # an aggregate / EXISTS query always yields one row
-            return self._row(n)
+            row = self._row(n)
+            if ev is not None:
+                ev.payload_row = row
+            return row
         if c.fork(isn):
             if self.on_none is not None:
                 c.assume(self.on_none(self))
             return None
-        return self._row(n)
+        row = self._row(n)
+        if ev is not None:
+            ev.payload_row = row
+        return row
 
     def fetchall(self):
         return self.__symseq__()
